@@ -55,6 +55,8 @@ ALL_LEAVES = set(range(1, 29))
 # a sub-alphabet: f, g, c, d; matrices (V,V) (V,W) (V,V*) (W,V*); forms a_VV af_VV L_V Lf_V Lq_V J_q;
 # Coargument(V*,1); Argument(V,1)
 SMALL_LEAVES = {1, 3, 4, 6, 7, 8, 10, 12, 13, 16, 17, 19, 21, 22, 24, 26}
+# quick tier: f, g, c; matrices (V,V) (V,W) (V,V*); forms a_VV af_VV L_V Lf_V; Coargument(V*,1); Argument(V,1)
+QUICK_LEAVES = {1, 3, 4, 7, 8, 10, 13, 16, 17, 19, 24, 26}
 LAW_INVS = ("RankOK", "Laws", "DerivativeSanity")
 
 
@@ -463,6 +465,9 @@ class Assembler:
 # --------------------------------------------------------------------------------------------
 
 
+STOPPED = ()  # replay_program: the program was not judged to the end (falsy, not a failure)
+
+
 class Failure(Exception):
     def __init__(self, aspect, detail, what):
         super().__init__(what)
@@ -619,6 +624,8 @@ def check_node(E, asm, pred, o, has_der, counters, corrupt=None):
     from ufl.classes import Argument, BaseForm, Expr
 
     kind, pargs, may, must, und, pt = pred
+    if und:
+        counters["undefined_skipped"] = counters.get("undefined_skipped", 0) + 1
     if corrupt:
         pargs, pt = corrupt(pargs, pt)
     n = 0
@@ -692,7 +699,7 @@ def replay_program(E, asm, line, variant, status, counters, corrupt=None, only=N
     status: {subtree key: "ok" | "bad" | "skip"} shared between programs.
     Returns (checks, failure or None) with failure = (node index, fingerprint, what)."""
     from ufl.algorithms import expand_derivatives
-    from ufl.differentiation import BaseFormDerivative
+    from ufl.classes import BaseForm, Form
 
     ops, preds = line
     objs = [E.leaf(k, i) for k, i in E.leaves]
@@ -708,7 +715,14 @@ def replay_program(E, asm, line, variant, status, counters, corrupt=None, only=N
         known = status.get(key)
         if known in ("bad", "skip"):
             counters["programs_on_failing_subprogram"] = counters.get("programs_on_failing_subprogram", 0) + 1
-            return checks, None
+            return checks, STOPPED
+        if pred[0] == "bf" and any(not isinstance(objs[i - 1], BaseForm) for i in ((a, b) if code in (1, 2) else (a,)) if i):
+            # ufl represents some results outside the BaseForm classes (an element of V** is a
+            # Coefficient: D_c action(c, f) = f; the adjoint of a Coargument is an Argument):
+            # the BaseForm operators do not apply to them
+            status[key] = "skip"
+            counters["operand_left_the_baseform_classes"] = counters.get("operand_left_the_baseform_classes", 0) + 1
+            return checks, STOPPED
         try:
             o = apply_op(E, op, objs, variant)
         except MachineryError:
@@ -721,7 +735,7 @@ def replay_program(E, asm, line, variant, status, counters, corrupt=None, only=N
                 # an argument-less zero Form as operand: ufl cannot know its arity
                 status[key] = "skip"
                 counters["refused_arityless_operand"] = counters.get("refused_arityless_operand", 0) + 1
-                return checks, None
+                return checks, STOPPED
             status[key] = "bad"
             return checks, (k, f"C28:raise:{OPNAME[code]}:{type(e).__name__}:{sig}", f"{sig} raises {type(e).__name__}: {str(e)[:160]}")
         objs.append(o)
@@ -735,20 +749,26 @@ def replay_program(E, asm, line, variant, status, counters, corrupt=None, only=N
             except Skip:
                 status[key] = "skip"
                 counters["refused_arityless_operand"] = counters.get("refused_arityless_operand", 0) + 1
-                return checks, None
+                return checks, STOPPED
             except Failure as f:
                 if f.aspect != "structure" and any(contains_arityless(objs[i - 1]) for i in (a, b) if i):
                     # an operand is an argument-less zero Form: ufl cannot know its arity
                     status[key] = "skip"
                     counters["refused_arityless_operand"] = counters.get("refused_arityless_operand", 0) + 1
-                    return checks, None
+                    return checks, STOPPED
                 status[key] = "bad"
                 return checks, (k, f"C28:{f.aspect}:{f.detail}:{sig}", f"{describe(E, ops, k)}: {f.what}")
-        if isinstance(o, BaseFormDerivative):
-            # the derivative of a Cofunction / Matrix / Coargument / ZeroBaseForm is a node that
-            # ufl's own tests always expand before using it: the program continues with the
-            # expanded object (its arguments as reported before expansion were compared above)
-            objs[-1] = expand_derivatives(o)
+        if code == 8 and not isinstance(o, Form):
+            # the derivative of a base form that is not a Form (Cofunction, Matrix, Coargument,
+            # ZeroBaseForm, FormSum, Action) holds BaseFormDerivative / CoefficientDerivative nodes
+            # that ufl's own tests always expand before using the result: the program continues
+            # with the expanded object (what was reported before expansion was compared above)
+            try:
+                objs[-1] = expand_derivatives(o)
+            except Exception:  # noqa: BLE001
+                status[key] = "skip"
+                return checks, STOPPED
+            desc[-1] = type(objs[-1]).__name__
     return checks, None
 
 
@@ -820,7 +840,7 @@ def _work(raw):
         checks += c
         if f:
             fails.append({"line": line, "variant": "ops", "node": f[0], "fp": f[1], "what": f[2]})
-        elif any(o[0] in (1, 2, 3, 4) or (o[0] == 8 and o[5] == 0) for o in ops):
+        elif f is None and any(o[0] in (1, 2, 3, 4) or (o[0] == 8 and o[5] == 0) for o in ops):
             # the same program through the FormSum constructor / an explicit direction argument
             c, f = replay_program(_E, _ASM, line, "ctor", _STATUS, counters)
             checks += c
@@ -863,6 +883,7 @@ def conform(ctx, table, lines, tag):
     chunks = _chunks(lines, 250)
     results = _POOL.map(_work, chunks, chunksize=1) if _POOL is not None and len(chunks) > 1 else [_work(c) for c in chunks]
     nprog = 0
+    allfails = []
     for n, checks, fails, counters, distinct in results:
         nprog += n
         ctx.traces(n)
@@ -871,13 +892,15 @@ def conform(ctx, table, lines, tag):
             ctx.count(k, v)
         for d in distinct:
             ctx.distinct(d)
-        for f in fails:
-            fp = f["fp"]
-            _REPORTED[fp] = _REPORTED.get(fp, 0) + 1
-            ctx.count("failing_programs:" + fp)
-            if _REPORTED[fp] > 3:
-                continue
-            ctx.violation(fp, f["what"], {"table": table, "line": f["line"], "variant": f["variant"], "node": f["node"]})
+        allfails.extend(fails)
+    # the smallest failing programs of each fingerprint are the ones kept as replay files
+    for f in sorted(allfails, key=lambda f: (f["node"], len(f["line"][0]), json.dumps(f["line"][0]))):
+        fp = f["fp"]
+        _REPORTED[fp] = _REPORTED.get(fp, 0) + 1
+        ctx.count("failing_programs:" + fp)
+        if _REPORTED[fp] > 3:
+            continue
+        ctx.violation(fp, f["what"], {"table": table, "line": f["line"], "variant": f["variant"], "node": f["node"]})
     ctx.count("programs_replayed:" + tag, nprog)
     return nprog
 
@@ -908,16 +931,18 @@ def run(ctx, args):
     ctx.assume("adjoint is applied to base forms whose two arguments are numbered 0, 1; derivative of an Action is tested when both operands are 1-forms / coefficients (the documented Leibniz rule); derivative of an Adjoint, a second derivative of an Action and -f, 2*f as right operand of an action are refused by ufl by design and excluded by the guards")
     ctx.assume("coefficients: must <= reported <= may, where must = coefficients whose perturbation changes the predicted tensor and may = coefficients occurring in the construction (zero elimination may legitimately drop coefficients)")
     ctx.assume("a Form whose integrands are all 0 (0*F, derivative of a form w.r.t. a coefficient it does not contain) carries no arguments in classic UFL: only its value (zero) is compared, and a composition ufl refuses because of such an operand is counted, not judged")
-    ctx.assume("adjoint(Coargument) is the primal Argument, which is not a BaseForm: only the map (identity) is compared")
+    ctx.assume("adjoint(Coargument) is the primal Argument and D_c action(c, f) is the Coefficient f: ufl represents them outside the BaseForm classes; only their map is compared, and programs that go on applying BaseForm operators to them are counted, not judged")
+    ctx.assume("the derivative of a base form that is not a Form is used further only after expand_derivatives (as in ufl's tests); what it reports before expansion is compared as returned")
+    ctx.assume("derivative with a coefficient direction is not applied to Actions; derivative of an Action object whose left operand holds a variational form next to other base forms is excluded (the Leibniz rule goes through compute_form_action)")
     ctx.assume("predictions with an entry outside the exact range of CQ.tla (|n|, d <= 20000) are not compared (counted as undefined_skipped)")
     t0 = time.time()
     seed = ctx.seed
     if quick:
         jobs = [
             Job("laws-depth1-10leaves", 1, leaves={1, 4, 7, 10, 13, 17, 19, 22, 24, 26}, weights=(1, 4), zeros=(2,), dercoefs=(1,), dump=False, invs=LAW_INVS),
-            Job("enum-depth2-small", 2, leaves=SMALL_LEAVES, weights=(1, 4), zeros=(2,), dercoefs=(1, 4)),
+            Job("enum-depth2-12leaves", 2, leaves=QUICK_LEAVES, weights=(1, 4), zeros=(2,), dercoefs=(1, 4)),
             Job("enum-depth1-all", 1),
-            Job("sim-depth4", 4, simulate=60, seed=seed),
+            Job("sim-depth4", 4, simulate=25, seed=seed),
         ]
     else:
         jobs = [
@@ -925,10 +950,10 @@ def run(ctx, args):
             Job("laws-depth1-all", 1, dump=False, invs=LAW_INVS),
             Job("enum-depth2-all", 2),
             Job("enum-depth3-6leaves", 3, leaves={1, 4, 10, 13, 19, 24}, weights=(1, 4), zeros=(4,), dercoefs=(1, 4)),
-            Job("sim-depth4", 4, simulate=500, seed=seed),
-            Job("sim-depth5", 5, simulate=400, seed=seed + 1),
+            Job("sim-depth4", 4, simulate=300, seed=seed),
+            Job("sim-depth5", 5, simulate=250, seed=seed + 1),
         ]
-    done = run_jobs(ctx, jobs, parallel=3 if quick else 2)
+    done = run_jobs(ctx, jobs, parallel=2)
     print(f"  TLC: {len(jobs)} runs, {sum(j.res.distinct for j in jobs)} states, {time.time() - t0:.1f}s", flush=True)
     for j in jobs:
         if not j.res.ok:
@@ -936,7 +961,8 @@ def run(ctx, args):
     table = None
     total = 0
     try:
-        for j in jobs:
+        # shallow exhaustive runs first, so that the cases kept per fingerprint are minimal
+        for j in sorted(jobs, key=lambda j: (bool(j.simulate), j.maxops)):
             if not j.dump:
                 continue
             tab, lines = split_prints(j)
@@ -1008,7 +1034,7 @@ def selftest(ctx):
 
     def pick(pred):
         for l in lines:
-            if pred(l) and not replay_program(E, _ASM, l, "ops", {}, {})[1]:
+            if pred(l) and replay_program(E, _ASM, l, "ops", {}, {})[1] is None:
                 return l
         raise MachineryError("selftest: no conforming line of the requested shape")
 
@@ -1040,7 +1066,6 @@ def selftest(ctx):
         return pa, pt
 
     def transpose(pa, pt):
-        m, n = DIM[pa[0][1]], DIM[pa[1][1]]
         return [pa[1], pa[0]], pt  # slots swapped, tensor not
 
     for name, line, fn in [
@@ -1067,8 +1092,6 @@ def selftest(ctx):
         Assembler.contract = orig
     rejected["mutant-assembler-contraction"] = [f"{nbad} lines rejected"] if nbad else []
     # an action that forgets to contract (returns the left operand) must be noticed
-    import ufl.formoperators as fo
-
     orig_action = E.ufl.action
     E.ufl.action = lambda a, b: a
     try:
